@@ -73,7 +73,7 @@ var c07Gen = TreeGen{MaxDepth: 4, MaxWidth: 4, MinWidth: 0, NilLeaves: 12, Conds
 
 func c07Tier(tier string) int {
 	if tier == "thorough" {
-		return 200000
+		return 600000
 	}
 	return 12000
 }
